@@ -329,6 +329,10 @@ def run(facts, tier, ctx):
     # the guards compare count_bits() values: those are the emitted sizes only if write == count_bits (C08)
     from . import c08
     out += c08.size_rules(facts)
+    # a choice taken from what the thread encoded before (a remembered stereo decision, a memoised candidate) is not a
+    # comparison of this frame's real sizes: the coding decisions must not read cross-call state (C10's history rules)
+    from . import c10
+    out += [r for r in c10.run(facts, tier, ctx) if r.rule in ("PLAIN-STATE", "STALE-READ")]
     return out
 
 
